@@ -60,6 +60,67 @@ def u_copy(c):
     c.oblige("frame/source-untouched", st(a) == sa, kind="frame")
 
 
+@unit("C36", "chain_future.source-kinds", [("tornado.concurrent", "chain_future"), ("tornado.concurrent", "chain_future.<locals>.copy")],
+      bounded="finite case analysis: 2 kinds of source future (asyncio, concurrent.futures) x 3 outcomes x settled before / after chaining x 3 target states, real objects on a real loop")
+def u_chain_kinds(c):
+    """the symbolic units model one kind of future (asyncio's); chain_future also accepts concurrent.futures.Future, whose cancelled state answers exception() with a
+    different CancelledError class: whatever the kind, a pending target ends with the source's outcome - cancellation included - and is never left pending"""
+    import asyncio
+    import concurrent.futures
+    import tornado.concurrent as TC
+    from pyvc.standin import vloop
+    kind = c.choose("source", ["asyncio", "concurrent.futures"])
+    outcome = c.choose("outcome", ["result", "exception", "cancelled"])
+    when = c.choose("source-settles", ["before-chaining", "after-chaining"])
+    target = c.choose("target", ["pending", "already-done", "already-cancelled"])
+    err = ValueError("boom")
+    f_chain = c.fn("tornado.concurrent", "chain_future")
+
+    async def main(v):
+        import tornado.ioloop
+        tornado.ioloop.IOLoop.current()
+        a = asyncio.get_event_loop().create_future() if kind == "asyncio" else concurrent.futures.Future()
+        b = asyncio.get_event_loop().create_future()
+        if target == "already-done":
+            b.set_result("earlier")
+        elif target == "already-cancelled":
+            b.cancel()
+
+        def settle():
+            if outcome == "result":
+                a.set_result("value")
+            elif outcome == "exception":
+                a.set_exception(err)
+            else:
+                a.cancel()
+                if kind != "asyncio":
+                    a.set_running_or_notify_cancel()
+        if when == "before-chaining":
+            settle()
+        raised = None
+        try:
+            f_chain(a, b)
+        except Exception as e:       # noqa: B902
+            raised = e
+        if when == "after-chaining":
+            settle()
+        await v.settle()
+        await v.settle()
+        state = "pending" if not b.done() else ("cancelled" if b.cancelled() else (("exception", b.exception()) if b.exception() is not None else ("result", b.result())))
+        if isinstance(state, tuple) and state[0] == "exception":
+            b.exception()
+        return raised, state
+    raised, state = vloop.run_history(main)
+    c.cover("chain-kinds")
+    c.values = {"target-ends": repr(state), "raised": repr(raised)}
+    c.oblige("post/chain_future-itself-does-not-raise", raised is None)
+    if target == "pending":
+        want = {"result": ("result", "value"), "exception": ("exception", err), "cancelled": "cancelled"}[outcome]
+        c.oblige("post/pending-target-gets-source-outcome-including-cancellation", state == want)
+    else:
+        c.oblige("post/done-target-untouched", state == (("result", "earlier") if target == "already-done" else "cancelled"))
+
+
 @unit("C36", "chain_future", [("tornado.concurrent", "chain_future")])
 def u_chain(c):
     """Registration: the copy closure over b is attached to a (run at once if a is already done)."""
